@@ -90,6 +90,9 @@ func c07Funcs(c *Ctx) []*ssa.Function {
 
 func c07() []*Ob {
 	return []*Ob{
+		{Prop: "C07", ID: "C07.13", Engine: "PROV(snapshot)", Floor: 1,
+			Desc:  "a search concurrent with indexing sees its snapshot only: every element of the list frac.inverseLIDs returns has been mapped by inverser.Inverse of the ids snapshot taken at the start of the search (which rejects documents indexed later) — a fast path that returns 1..N when the token's list has the snapshot's length and ends answers with documents that do not carry the token whenever late documents with the token replaced, in number, snapshot documents without it",
+			Check: func(c *Ctx) { onlySnapshotLIDs(c) }},
 		{Prop: "C07", ID: "C07.12", Engine: "PROV(delegation)", Floor: 3,
 			Desc:  "the proxy fraction has no memory of its own: every return of proxyFrac.Info, Contains and IsIntersecting is the result of the same call on the fraction that is current at that moment (f.cur(), f.active, f.sealed) — the borders and counters of a fraction keep moving after it became read-only, until the writers that had passed the writable check are done; an Info remembered at the first read-only call hides the documents indexed after it from ranged searches and from fetch until the sealing ends",
 			Check: func(c *Ctx) { answersFromCurrentFraction(c) }},
